@@ -47,6 +47,7 @@ pub struct Out {
     pub failures: Vec<serde_json::Value>,
     pub direct_checks: u64,
     pub notes: Vec<String>,
+    pub exhaustive: bool,
 }
 impl Out {
     /// one operation executed by the implementation; `nontrivial` per the family's stated rule
@@ -88,6 +89,7 @@ impl Out {
             "samples": self.samples,
             "direct_failures": self.failures,
             "notes": self.notes,
+            "exhaustive": self.exhaustive,
         });
         std::fs::write(format!("{}/meta.json", dir), serde_json::to_string_pretty(&meta).unwrap()).unwrap();
     }
